@@ -712,6 +712,20 @@ def execute_perturbation(rec, start_sig, names_idx=0):
             'after_error': ((after.get('error') or {}).get('msg') or '')[:300],
             'sources': srcs,
         })
+        if res['outcome'] == 'ok' and any(e['ev'] == 'stmt' for e in res['events']):
+            # an oracle that does not ask the code's own diff: what the executed evolution left in
+            # the database against what creating the current models from scratch gives
+            from ..dbproj import diff_schema, schema_of
+            fresh = Project(['shop'], tag='pertf')
+            try:
+                fresh.deploy('shop', render_models(final, names, 'shop'), [])
+                rf = fresh.run({'action': 'evolve_api'})
+                if rf['outcome'] == 'ok':
+                    want = {t: x for t, x in schema_of(rf['post']['default']['db']).items() if t.startswith('shop_')}
+                    have = {t: x for t, x in schema_of(res['post']['default']['db']).items() if t.startswith('shop_')}
+                    out['schema_vs_fresh'] = diff_schema(want, have)
+            finally:
+                fresh.destroy()
         return out
     finally:
         project.destroy()
